@@ -225,6 +225,10 @@ class StmtMixin:
         seq = it if it.ty.kind == "List" else None
         self.inv_loop(node, st, lid, spec, kind="for", n=n, getter=getter, seq=seq)
 
+    def unreachable_loops(self):
+        c = self.contracts.get(self.cur_qual)
+        return set(getattr(c, "unreachable_loops", ()) or ()) if c is not None and len(self.inline_stack) <= 1 else set()
+
     def ex_While(self, node, st):
         if node.orelse:
             raise Unsupported("while/else", node)
@@ -374,7 +378,18 @@ class StmtMixin:
             ghost2 = dict(ghost)
             if is_for:
                 ghost2["_i"] = Val(TInt, i + 1)
-            self.probe("loop#%d-body-reachable" % lid, s)      # before the step obligations (they are assumed once stated)
+            if lid not in self.unreachable_loops():
+                self.probe("loop#%d-body-reachable" % lid, s)      # before the step obligations (they are assumed once stated)
+            if is_for and seq is not None and isinstance(node.iter, (ast.Attribute, ast.Name)):
+                # python iterates the LIVE list by index; the engine iterates the list as it was at loop entry.  The two agree
+                # when an iteration that continues leaves the iterated list as it was: an obligation wherever the body may edit it
+                try:
+                    now = self.ev(node.iter, s)
+                except Unsupported:
+                    now = None
+                if now is not None and now.ty.kind == "List" and now.z is not None and seq.z is not None and not now.z.eq(seq.z):
+                    self.oblige("safe", "iterated-list-not-edited-by-a-continuing-iteration#%d" % lid,
+                                zor(zor(s.brk, s.ret), now.z == seq.z), s, node)
             self.loop_head.append((dict(h.heap), dict(h.env)))
             try:
                 self.check_invs(kind, lid, spec, s, ghost2, node, "step")
@@ -445,6 +460,7 @@ class StmtMixin:
 
     # ------------------------------------------------------------------ bounded unrolling
     def unroll_for(self, node, st, it):
+        it0 = it
         if it.ty.kind == "Set":
             it = self.set_to_list(it, st, node)
         if it.ty.kind == "Iter" and it.py[0] in ("filter", "genif"):
@@ -463,6 +479,14 @@ class StmtMixin:
             self.bind_target(node.target, getter(kk), s, node)
             self.exec_block(node.body, s)
             s.cont = False
+            if it0.ty.kind == "List" and it0.z is not None and isinstance(node.iter, (ast.Attribute, ast.Name)):
+                # same side condition as in INV mode: the engine iterates the list as it was at loop entry
+                try:
+                    now = self.ev(node.iter, s)
+                except Unsupported:
+                    now = None
+                if now is not None and now.ty.kind == "List" and now.z is not None and not now.z.eq(it0.z):
+                    self.oblige("safe", "iterated-list-not-edited-by-a-continuing-iteration", zor(zor(s.brk, s.ret), now.z == it0.z), s, node)
             s.path.pop()
             self.merge(c, s, st.copy(), st)
         st.brk = False
